@@ -1,9 +1,9 @@
 #!/bin/bash
 # neutone.sh <diff-name-substring> [props]  : apply one independent neutral diff to a scratch copy (kept under /tmp/n) and run checkall
 set -e
-d=$(ls /verif/neutral_indep/*$1*.diff | head -1)
+d=$(ls ${DIR:-/verif/neutral_indep}/*$1*.diff | head -1)
 n=$(basename $d .diff)
-if [ ! -d /tmp/n/$n ]; then mkdir -p /tmp/n/$n; rsync -a --exclude .git /repo/ /tmp/n/$n/; (cd /tmp/n/$n && patch -p1 -s -i $d); fi
+if [ ! -d /tmp/${NDIR:-n}/$n ]; then mkdir -p /tmp/${NDIR:-n}/$n; rsync -a --exclude .git /repo/ /tmp/${NDIR:-n}/$n/; (cd /tmp/${NDIR:-n}/$n && patch -p1 -s -i $d); fi
 mkdir -p /tmp/n/v/evidence; cp /verif/known_findings.json /tmp/n/v/
 export GOFLAGS=-mod=mod GOPROXY=off GOSUMDB=off GOTOOLCHAIN=local
-/verif/bin/yverif checkall -repo /tmp/n/$n -verif /tmp/n/v ${2:+-props $2} | grep -v "^VIOLATION" | grep -v "violated=0 undecided=0" | cut -c1-${WIDTH:-600}
+/verif/bin/yverif checkall -repo /tmp/${NDIR:-n}/$n -verif /tmp/n/v ${2:+-props $2} | grep -v "^VIOLATION" | grep -v "violated=0 undecided=0" | cut -c1-${WIDTH:-600}
